@@ -93,10 +93,9 @@ def check_sumrule(case):
     E_own = model.bands(k)
     off = 0.37 + 0.1 * (case["rs"] % 7)
     Efermi = np.linspace(E_own[0] - off, E_own[-1] + off + 0.113, case["nEf"])
-    res = wb.evaluate_k(system, k=k, quantities=["berry_curvature_internal_terms", "energy"],
+    res = wb.evaluate_k(system, k=k, quantities=["berry_curvature_internal_terms"], return_single_as_dict=True,
                         calculators={"ahc": AHC(Efermi=Efermi, kwargs_formula={"external_terms": False})})
     Om = np.array(res["berry_curvature_internal_terms"], dtype=float)
-    E = np.array(res["energy"], dtype=float)
     ahc = np.array(res["ahc"].data, dtype=float)
     if Om.shape != (nw, 3) or ahc.shape != (len(Efermi), 3):
         raise Violation("shape", f"curvature {Om.shape}, ahc {ahc.shape}")
